@@ -9,6 +9,10 @@
 import PgProofs.Evo
 import PgProofs.EvoPrims
 import PgProofs.EvoMut
+import PgProofs.EvoAlign
+import PgProofs.EvoAlignU
+import PgProofs.EvoPure
+import PgProofs.EvoPermP
 import Mathlib.Data.List.Perm.Subperm
 namespace Pg.C14
 
@@ -168,33 +172,46 @@ theorem C14_primitive_recKPoint (g : GSpec) (k : Nat) : ClosedAligned g (recKPoi
 theorem C14_primitive_recSegmented (g : GSpec) (cuts : List Nat) : ClosedAligned g (recSegmented g cuts) :=
   fun pop st out st' _ h => recSegment_checked g _ pop st out st' h
 
+/-- `Order` crossover (with `where.Any`): it returns its two parents (no permutation point) or
+children that went through `from_dict`. -/
+theorem C14_primitive_recOrder (g : GSpec) : ClosedAligned g (recOrder g) := by
+  intro pop st out st' hp h
+  rcases recOrder_spec g pop st out st' h with ⟨rfl, _⟩ | ⟨_, hall⟩
+  · exact hp
+  · exact fun y hy => ⟨(hall y hy).1, (hall y hy).2.1⟩
+
 /-! ## Mutators (mutators.py) -/
 
 /-- `Uniform`: redraw of a sub-tree (under the distinct constraint, re-sorted where required). -/
 theorem C14_primitive_mutUniform (fuel : Nat) (g : GSpec) : Closed g (mutUniform fuel g) :=
   fun pop st out st' hp h y hy => ((mutUniform_spec fuel g pop st out st' hp h).2 y hy).1
 
+/-- `Uniform` also keeps alignment: a redrawn entry stays bound to its position, a re-sorted
+multi-choice is re-bound (`realign`), a redrawn sub-tree is bound by `random_dna`. -/
+theorem C14_primitive_mutUniform_aligned (fuel : Nat) (g : GSpec) : ClosedAligned g (mutUniform fuel g) :=
+  fun pop st out st' hp h => mutUniform_aligned fuel g pop st out st' hp h
+
 /-- `Swap` keeps validity … -/
-theorem C14_primitive_mutSwap (g : GSpec) : Closed g (mutSwap g) :=
+theorem C14_primitive_mutSwap_closed (g : GSpec) : Closed g (mutSwap g) :=
   fun pop st out st' hp h y hy => ((mutSwap_spec g pop st out st' hp h).2 y hy).1
 
-/-- … but not alignment (finding F21): full statement, counterexample, and what is proved instead. -/
-def C14_mutSwap_aligned_Full : Prop := ∀ g, ClosedAligned g (mutSwap g)
+/-- … and alignment: since /repo c8b4917 the two swapped entries are re-bound to the decision
+points of their new positions (`rebindEntry`). Before that fix this statement was false (finding
+F21; the branch history holds `C14_mutSwap_aligned_counterexample`, whose witness
+`DNA([0, 1])` under `manyof(2, 3 candidates, distinct)` is still replayed on every run as the
+witness of the now *fixed* finding). -/
+theorem C14_primitive_mutSwap (g : GSpec) : ClosedAligned g (mutSwap g) :=
+  fun pop st out st' hp h => mutSwap_aligned g pop st out st' hp h
 
 def f21Spec : GSpec := .choices 2 [.space [], .space [], .space []] true false
 def f21Dna : DNA := .choices [.sub 0 0 (.space []), .sub 1 1 (.space [])]
 
-theorem C14_mutSwap_aligned_counterexample : ¬ C14_mutSwap_aligned_Full := by
-  intro h
-  have := h f21Spec [{ uid := 0, dna := f21Dna, fit := some 1 }]
-    { oracle := [.idxs .shuffle 1 1 [0], .idxs .sample 2 2 [0, 1]], nextUid := 1 }
-    [{ uid := 1, dna := .choices [.sub 1 1 (.space []), .sub 0 0 (.space [])], fit := none }]
-    { oracle := [], nextUid := 2 }
-    (by intro x hx; simp only [List.mem_singleton] at hx; subst hx
-        exact ⟨by unfold Valid; decide, by unfold Aligned; decide⟩)
-    (by rfl)
-    _ List.mem_cons_self
-  exact absurd this.2 (by unfold Aligned; decide)
+/-- the F21 witness, now: the swapped child is valid and aligned. -/
+theorem C14_mutSwap_f21_witness :
+    mutSwap f21Spec [{ uid := 0, dna := f21Dna, fit := some 1 }]
+      { oracle := [.idxs .shuffle 1 1 [0], .idxs .sample 2 2 [0, 1]], nextUid := 1 } =
+    .ok ([{ uid := 1, dna := .choices [.sub 0 1 (.space []), .sub 1 0 (.space [])], fit := none }],
+         { oracle := [], nextUid := 2 }) := by rfl
 
 /-! ## The composition algebra: composed pipelines inherit the guarantees -/
 
@@ -262,6 +279,27 @@ theorem C14_pure_mutSwap (g : GSpec) : Pure g (mutSwap g) := by
   obtain ⟨h1, h2⟩ := mutSwap_spec g pop st out st' hv hr
   exact ⟨h1, fun y hy => ⟨(h2 y hy).1, Or.inr (h2 y hy).2⟩⟩
 
+theorem C14_pure_recPointWise (sample : Bool) (fuel : Nat) (g : GSpec) : Pure g (recPointWise sample fuel g) := by
+  intro pop st out st' _ hr
+  obtain ⟨h1, h2⟩ := recPointWise_fresh sample fuel g pop st out st' hr
+  exact ⟨h1, fun y hy => ⟨(recPointWise_checked sample fuel g pop st out st' hr y hy).1, Or.inr (h2 y hy)⟩⟩
+
+theorem C14_pure_recKPoint (g : GSpec) (k : Nat) : Pure g (recKPoint g k) := by
+  intro pop st out st' _ hr
+  obtain ⟨h1, h2⟩ := recSegment_fresh g _ (OO_kpointCuts k) pop st out st' hr
+  exact ⟨h1, fun y hy => ⟨(recSegment_checked g _ pop st out st' hr y hy).1, Or.inr (h2 y hy)⟩⟩
+
+theorem C14_pure_recSegmented (g : GSpec) (cuts : List Nat) : Pure g (recSegmented g cuts) := by
+  intro pop st out st' _ hr
+  obtain ⟨h1, h2⟩ := recSegment_fresh g _ (fun _ => OO.pure _) pop st out st' hr
+  exact ⟨h1, fun y hy => ⟨(recSegment_checked g _ pop st out st' hr y hy).1, Or.inr (h2 y hy)⟩⟩
+
+theorem C14_pure_recOrder (g : GSpec) : Pure g (recOrder g) := by
+  intro pop st out st' hv hr
+  rcases recOrder_spec g pop st out st' hr with ⟨rfl, rfl⟩ | ⟨hle, hall⟩
+  · exact ⟨Nat.le_refl _, fun y hy => ⟨hv y hy, Or.inl hy⟩⟩
+  · exact ⟨hle, fun y hy => ⟨(hall y hy).1, Or.inr (hall y hy).2.2⟩⟩
+
 /-- Determinism: an operation is a function of its inputs, its oracle stream and the uid counter
 (seeded operators: of seed and inputs) — in the model this is functionality of `eval`. -/
 theorem C14_det (e : OpExpr) (pop : Pop) (st₁ st₂ : St) (h : st₁.oracle = st₂.oracle)
@@ -283,6 +321,15 @@ example : ∃ out st', eval (.seq (.leaf (selFirst (.count 1))) (.leaf (selLast 
     [{ uid := 0, dna := f21Dna, fit := some 1 }, { uid := 1, dna := f21Dna, fit := some 3 }]
     { oracle := [], nextUid := 2 } = .ok (out, st') ∧ out.length = 1 :=
   ⟨_, _, rfl, rfl⟩
+/-- an Order crossover at a root permutation point: two distinct children out of four proposals. -/
+example : ∃ out st', recOrder (.space [.choices 3 [.space [], .space [], .space []] true false])
+    [{ uid := 0, dna := .space [.choices [.sub 0 0 (.space []), .sub 1 1 (.space []), .sub 2 2 (.space [])]], fit := some 1 },
+     { uid := 1, dna := .space [.choices [.sub 0 2 (.space []), .sub 1 1 (.space []), .sub 2 0 (.space [])]], fit := some 2 }]
+    { oracle := [.idxs .sample 3 2 [0, 2],
+                 .order [.space [.choices [.sub 0 0 (.space []), .sub 1 1 (.space []), .sub 2 2 (.space [])]],
+                         .space [.choices [.sub 0 2 (.space []), .sub 1 1 (.space []), .sub 2 0 (.space [])]]]],
+      nextUid := 2 } = .ok (out, st') ∧ out.map (·.uid) = [2, 3] :=
+  ⟨_, _, rfl, rfl⟩
 example : ∀ op ∈ leaves (.seq (.leaf (selFirst (.count 1))) (.leaf (mutSwap f21Spec))), Closed f21Spec op := by
   intro op ho
   simp only [leaves, List.mem_append, List.mem_singleton] at ho
@@ -290,6 +337,6 @@ example : ∀ op ∈ leaves (.seq (.leaf (selFirst (.count 1))) (.leaf (mutSwap 
   · intro pop st out st' hp h
     exact ((C14_selector_preserves (C14_selector_First _) (fun x => Valid f21Spec x.dna) (fun _ => True))
       pop st out st' hp trivial h).1
-  · exact C14_primitive_mutSwap _
+  · exact C14_primitive_mutSwap_closed _
 
 end Pg.C14
